@@ -289,16 +289,32 @@ def concretize_int(x, limit=64):
     if not isinstance(x, SymInt):
         return int(x)
     c = core.ctx()
+    tried = []
     for _ in range(limit):
         t0 = T._subst(x.t)
         if isinstance(t0, int):
             return t0            # (by now) determined by the path condition: no decision to take
-        v = core.peek_aux()      # replaying: the candidate value is part of the recorded decision
+        v = None
+        rec = core.peek_decision()      # replaying: the candidate value is part of the recorded decision ...
+        if rec is not None and rec[1] is not None:
+            cand = T.ieq(x.t, rec[1])
+            # ... but only if the next recorded decision IS this comparison: when the original run found the value determined here (the
+            # comparison folded to a constant, no decision was recorded) the next entry belongs to a later concretisation
+            if cand is not True and cand is not False and cand.h == rec[0]:
+                v = rec[1]
         if v is None:
             v = T.ev(x.t, c.need_model())
+            if v in tried:
+                # the cached model proposes a value this path has already excluded: it is stale (it was computed before a later
+                # constraint was added) - ask the solver for a model of the current path condition instead of looping on it
+                c.model = None
+                v = T.ev(x.t, c.need_model())
+                if v in tried:
+                    raise Unsupported('concretize_int: solver model repeats the excluded value %r (tried %r)' % (v, tried))
+        tried.append(v)
         if branch(T.ieq(x.t, v), aux=v):
             return v
-    raise Unsupported('concretize_int: domain larger than %d' % limit)
+    raise Unsupported('concretize_int: domain larger than %d (tried %r ...)' % (limit, tried[:8]))
 
 
 # ------------------------------------------------------------------ characters
